@@ -396,9 +396,14 @@ func (x *dbExec) step(db *simpledb.DB, s dbStep, g int) (*simpledb.DB, error) {
 				return
 			}
 			hit := new(bool)
-			if st.Which == "data" {
+			switch st.Which {
+			case "data":
 				w.VerifWrapWriters(func(d recordio.WriterI) recordio.WriterI { return &countingFailData{WriterI: d, at: st.Pos, hit: hit} }, nil)
-			} else {
+			case "dataclose":
+				w.VerifWrapWriters(func(d recordio.WriterI) recordio.WriterI { return &countingFailData{WriterI: d, at: -1, hit: hit, failClose: true} }, nil)
+			case "indexclose":
+				w.VerifWrapWriters(nil, func(i rProto.WriterI) rProto.WriterI { return &countingFailIndex{WriterI: i, at: -1, hit: hit, failClose: true} })
+			default:
 				w.VerifWrapWriters(nil, func(i rProto.WriterI) rProto.WriterI { return &countingFailIndex{WriterI: i, at: st.Pos, hit: hit} })
 			}
 			rec.emit(M{"t": "note", "name": "failwrites armed for " + filepath.Base(w.VerifBasePath())})
